@@ -39,6 +39,11 @@ def generate(tier, seed):
     # taken from the demonstration of seeded change C05-j); next to parts that need more / fewer sweeps
     for i, other in enumerate(("3SGB.pdb", "1FTJ-Chain-A.pdb", "capped-cluster", "1HPX.pdb")[:(2 if tier == "quick" else 4)]):
         cases.append({"kind": "near-tie", "other": other, "d": (40.0, 70.0, 300.0, 1100.0)[i], "seed": "%d:nt:%d" % (seed, i), "cost": 300})
+    # -d (alternative states of coupled groups are kept) on a part with coupled groups and a single state of its
+    # own, next to a part whose alternate-location labels give the union several conformations: the part's
+    # groups must come out of every conformation of the union as they do alone (round 13, seeded change C05-w)
+    for i in range(6 if tier == "quick" else 120):
+        cases.append({"kind": "swapd", "d": DIST[i % len(DIST)], "seed": "%d:sd:%d" % (seed, i), "cost": 400 if i % 2 == 0 else 80})
     return cases
 
 
@@ -218,6 +223,11 @@ def run_case(case, tier):
         else:
             b = sources.full_protein(case["other"])
         classes.append("near-tie-cluster")
+    elif case["kind"] == "swapd":
+        from .c15 import cluster_cutout
+        a = sources.full_protein("1HPX.pdb") if case["cost"] > 100 else cluster_cutout(rng)
+        b = sources.random_small_structure(rng, 80, 500)
+        classes.append("swap-display-next-to-foreign-alt-locs")
     else:
         def part():
             u = rng.random()
@@ -292,6 +302,10 @@ def run_case(case, tier):
         a = add_altlocs(a, altsets[0], rng)
         b = add_altlocs(b, altsets[1], rng)
         classes.append("alt-locs:%s/%s" % (altsets[0] or "-", altsets[1] or "-"))
+    if case["kind"] == "swapd" and sources.identities_unique(a) and sources.identities_unique(b):
+        altsets = ("", rng.choice(("AB", "ABC", "12")))
+        b = add_altlocs(b, altsets[1], rng)
+        classes.append("alt-locs:-/%s" % altsets[1])
     used = {r.chain for r in a if r.raw is None}
     same_ligand = None
     if case["kind"] == "built" and rng.random() < 0.3:
@@ -377,6 +391,8 @@ def run_case(case, tier):
         classes.append("parts-joined-cat-style")
     tab, tba = pdbio.dump(a + sep_ab + b), pdbio.dump(b + sep_ba + a)
     xo = util.neutral_options(rng, families=("grid", "protonation", "keep", "swap-display"), classes=classes)
+    if case["kind"] == "swapd":
+        xo = ["-d"]
     if case["kind"] == "built" and rng.random() < 0.25:
         ov = {"common_charge_centre": rng.choice((1, 1, 0)), "shared_determinants": rng.choice((0, 1)),
               "remove_penalised_group": rng.choice((0, 1))}
